@@ -144,6 +144,27 @@ func init() {
 					}
 				}
 			}
+			// a peer that has nothing to do with the writes is connected as well, and goes away at
+			// some point (fault conn.drop): the pending writes of the others are none of its business
+			if w.T.Bool(1, 2, "bystander") {
+				px := w.NewPeer("PX", "d:_i:PX", pr.L)
+				stdPeerTree(px, false)
+				px.Connect()
+				w.Go("bystander-leaves", func() {
+					px.AwaitDiscovery()
+					for k := w.T.Choose(24, "bystander-delay"); k > 0; k-- {
+						w.Yield("bystander-delay")
+					}
+					if w.T.Bool(1, 2, "bystander-waits") {
+						w.Sleep(time.Duration(1+w.T.Choose(50, "bystander-ms")) * time.Millisecond)
+					}
+					w.Logf("fault conn.drop PX (bystander)")
+					if pr.L.Disconnect("PX") {
+						w.Fault("conn.drop")
+						w.Probe("c12-bystander-removed")
+					}
+				})
+			}
 			for pi, p := range pr.Peers {
 				p, sf := p, feats[pi%len(feats)]
 				w.Go("script:"+p.Name, func() {
